@@ -120,6 +120,8 @@ func srcSelfTest() error {
 		{tcp("10.1.2.3"), "::ffff:10.1.2.3", true},
 		{tcp("10.1.2.3"), "::ffff:10.1.2.0/120", true},
 		{tcp("::ffff:10.1.2.3"), "10.1.2.3", true},
+		{Remote{Kind: "tcp16", Addr: "192.168.7.9"}, "192.168.7.9,garbage", true},
+		{Remote{Kind: "tcp16", Addr: "::ffff:10.1.2.3"}, "10.1.2.0/24", true},
 		{tcp("::1"), "::1", true},
 		{tcp("::1"), "::/0", true},
 		{tcp("::1"), "0.0.0.0/0", false},
